@@ -15,7 +15,13 @@ ORD = ["", ", first inversion", ", second inversion", ", third inversion", ", fo
 POOL21 = [l + a for l in LETTERS for a in ("", "#", "b")]
 
 def both(chord):
-    return [chords.determine(list(chord), True), chords.determine(list(chord), False)]
+    # ONE list object for both calls, as a caller asking for both forms has: recognition must leave it as it was
+    c = list(chord)
+    short = chords.determine(c, True)
+    long_ = chords.determine(c, False)
+    if c != list(chord):
+        raise AssertionError("determine changed the caller's list")
+    return [short, long_]
 
 IMPL = {"chords.both": both}
 
